@@ -676,6 +676,9 @@ def r_event_marks(ctx, repo):
                 for attr, how, line in _token_marks(flow, a, site):
                     if how == 'peek' and attr == 'end_mark':
                         problems.append('argument %d is the end_mark of a token that was only peeked (line %d)' % (idx + 1, line))
+                    if what == 'empty scalar' and how != 'peek' and attr == 'start_mark':
+                        problems.append('the empty scalar is placed at the start_mark of a token that was already consumed (line '
+                                        '%d): it lies before the end of what the parser has just reported' % line)
             if problems:
                 rule.fail('%s|%s' % (f.qualname, what), f.module.rel, c.lineno, f.qualname, norm(c)[:80],
                           '%s: %s - the event overlaps the next token, so the following event starts before this one ends '
